@@ -53,7 +53,7 @@ static vf::Counter c_hist("histories"), c_ops("operations-checked"), c_malloc("o
     c_realloc_shrink("op:Realloc-shrink-or-same"), c_clear("op:Clear"), c_copy("op:copy-handle"), c_move("op:move-handle"), c_destroy("op:destroy-handle"), c_zero("op:zero-size-request"),
     c_userbuf("pool:user-buffer"), c_userbuf_mis("pool:user-buffer-misaligned"), c_adaptive("pool:adaptive-policy"), c_simple("pool:simple-policy"), c_newchunk("event:new-chunk"),
     c_verify("content-reverifications"), c_big("op:request-larger-than-chunk"), c_docs("documents-parsed-on-small-chunk-pools"), c_default_base("pool:default-constructed-base-allocator"),
-    c_unsat("op:request-that-cannot-be-satisfied(near SIZE_MAX)");
+    c_unsat("op:request-that-cannot-be-satisfied(near SIZE_MAX)"), c_move_assign("op:move-assign-between-handles-of-one-pool");
 
 static const size_t kHdr = 24;  // SONIC_ALIGN(sizeof(ChunkHeader)): capacity, size, next
 
@@ -316,6 +316,17 @@ struct PoolHist {
       log("move-handle");
       c_move.add();
       size_t a = r.below(handles.size());
+      if (handles.size() >= 2 && r.coin()) {
+        // move ASSIGNMENT onto another handle of the same pool (the sink-parameter idiom); the moved-from handle is
+        // only destroyed afterwards
+        size_t b = r.below(handles.size());
+        if (a != b) {
+          c_move_assign.add();
+          *handles[a] = std::move(*handles[b]);
+          handles.erase(handles.begin() + b);
+          return;
+        }
+      }
       std::unique_ptr<Pool> moved(new Pool(std::move(*handles[a])));
       handles[a] = std::move(moved);
     } else if (op == 18) {  // destroy a handle (never the last one here)
